@@ -79,7 +79,9 @@ def main(tier, replay):
         broken.append("Props/C07.v or its per-run obligations do not compile: " + r["failed"][:800])
 
     quick = tier != "thorough"
-    budget = 75 if quick else 1080
+    budget = 60 if quick else 1080
+    if os.environ.get("VERIF_DRIVE_BUDGET"):      # self-test runs on a loaded machine
+        budget = int(os.environ["VERIF_DRIVE_BUDGET"])
     summary, dlog = cs.drive(PID, tier, budget)
     targeted = None
     if broken:
